@@ -31,7 +31,7 @@ RULE = (
 )
 ASSUMPTIONS = [
     "only user-declared names are compared; derived-type objects after CALL (prefix of obj%proc) and the enclosing function's own name are tolerated either way",
-    "layouts without statement splitting/joining, indent <= 4",
+    "layouts without statement splitting/joining",
 ]
 
 VAR_KINDS = ("variable", "local", "dummy", "assoc")
@@ -153,7 +153,7 @@ def collect_aliased(prog):
 
 
 def check_program(ctx, prog, layout, picks, scratch):
-    layout = dataclasses.replace(layout, split_every=0, join_every=0, indent=min(layout.indent, 4))
+    layout = dataclasses.replace(layout, split_every=0, join_every=0)
     r = fmodel.render(prog, layout)
     fws.gfortran_sample(ctx, r)
     root = os.path.join(scratch, "c12_ws")
@@ -264,7 +264,7 @@ def run(ctx):
         return check_program(ctx, v[0], v[1], v[2], ctx.scratch)[0]
 
     def case_of(v):
-        r = fmodel.render(v[0], dataclasses.replace(v[1], split_every=0, join_every=0, indent=min(v[1].indent, 4)))
+        r = fmodel.render(v[0], dataclasses.replace(v[1], split_every=0, join_every=0))
         return {"files": r.files}
 
     ctx.hyp(case_st, oracle, max_examples=ctx.n(60, 1200), case_of=case_of, collect=bool(os.environ.get("VERIF_COLLECT")))
